@@ -19,8 +19,11 @@ def one(bid):
         r = subprocess.run(["git", "apply", "--exclude=demo.py", os.path.join(d, "patch.diff")], cwd=scratch, capture_output=True, text=True)
         if r.returncode != 0:
             return (bid, None, "patch no longer applies to HEAD (skipped)")
-        fired, errors = {}, {}
-        for p in CLAIMED:
+        only = [x for x in os.environ.get("NQSA_PROPS", "").split(",") if x]
+        # (restricted to some properties: what the others said the last time is kept)
+        fired = {k: v for k, v in (meta.get("checks_fired") or meta.get("fired") or {}).items() if only and k not in only}
+        errors = {k: v for k, v in (meta.get("checks_errors") or meta.get("errors") or {}).items() if only and k not in only}
+        for p in (only or CLAIMED):
             ctx = evaluate(p, "quick", root=scratch)
             v, k = report.classify(ctx)
             if v:
